@@ -13,6 +13,7 @@ from .c02 import intra_frame_boundaries, run_reader
 PROP = "C17"
 RUNS = {"quick": 24000, "thorough": 500000}
 BLOCK = {"quick": 100, "thorough": 1000}
+TRACE_SAMPLE = 60  # reach probe runs single-process under settrace: keep it cheap
 SHRINK_LISTS = ["items", "decisions"]
 RULE = (
     "one run = one seeded world (valid frames of all corpus classes + complete NMEA/UBX + inert noise; a seeded subset "
